@@ -15,16 +15,16 @@ from mc import fp
 
 from pypika_tortoise import AliasedQuery, Database, Field, Query, Schema, Table
 from pypika_tortoise import functions as FN
-from pypika_tortoise.dialects import PostgreSQLQuery
+from pypika_tortoise.dialects import MySQLQuery, PostgreSQLQuery
 from pypika_tortoise.terms import Criterion, Case, SystemTimeValue, Tuple
 
 PROPERTY = "C17"
 
 NAMES = ["t", "u"]
-SCHEMAS = ["none", "str", "list", "schema", "nested", "other", "db_only", "deep3"]
+SCHEMAS = ["none", "str", "list", "schema", "nested", "other", "db_only", "deep3", "deep3b"]
 ALIASES = [None, "x", "t"]  # ("t": the alias spelled like a table name - equal written names, different tables)
 TEMPORAL = ["none", "for", "for2", "portion"]
-QCLS = [None, "pg"]
+QCLS = [None, "pg", "my"]
 
 
 def mk_schema(k):
@@ -44,11 +44,13 @@ def mk_schema(k):
         return "d"
     if k == "deep3":  # ... which are proper prefixes of this one
         return ["d", "s", "x"]
+    if k == "deep3b":  # differs from deep3 in the outermost qualifier only
+        return ["e", "s", "x"]
 
 
 def mk_table(desc):
     name, sk, alias, temp, qc = desc
-    t = Table(name, schema=mk_schema(sk), alias=alias, query_cls=PostgreSQLQuery if qc == "pg" else None)
+    t = Table(name, schema=mk_schema(sk), alias=alias, query_cls={"pg": PostgreSQLQuery, "my": MySQLQuery}.get(qc))
     if temp == "for":
         t = t.for_(SystemTimeValue().as_of("2020-01-01"))
     elif temp == "for2":
@@ -59,7 +61,8 @@ def mk_table(desc):
 
 
 def table_descs():
-    return [list(d) for d in itertools.product(NAMES, SCHEMAS, ALIASES, TEMPORAL, QCLS)]
+    # (the MySQL query class - the one with another identifier quote - only for the non-temporal variants)
+    return [list(d) for d in itertools.product(NAMES, SCHEMAS, ALIASES, TEMPORAL, QCLS) if not (d[4] == "my" and d[3] != "none")]
 
 
 def mk_other(desc):
@@ -76,6 +79,9 @@ def mk_other(desc):
         return a.as_(desc[3]) if len(desc) > 3 and desc[3] else a
     if k == "table":
         return Table(desc[1], alias=desc[2])
+    if k == "so":
+        q = Query.from_(Table(desc[2])).select("a").union(Query.from_(Table("w")).select("a"))
+        return q.as_(desc[1]) if desc[1] else q
     if k == "qb":
         alias, froms, sel = desc[1], desc[2], desc[3]
         q = Query.from_(Table(froms[0]))
@@ -90,7 +96,7 @@ def mk_other(desc):
 
 def other_descs():
     out = []
-    for parts in (["s"], ["s2"], ["d", "s"], ["d", "s2"], ["e", "s"], ["d"], ["d", "s", "x"], ["s", "x"]):
+    for parts in (["s"], ["s2"], ["d", "s"], ["d", "s2"], ["e", "s"], ["d"], ["d", "s", "x"], ["s", "x"], ["e", "s", "x"], ["f", "d", "s", "x"], ["g", "d", "s", "x"]):
         for db in (False, True):
             out.append(["schema", parts, db])
     for name in ("c1", "c2"):
@@ -98,6 +104,9 @@ def other_descs():
             out.append(["aq", name, q])
         for al in ("x", "c1", "a1"):  # renamed after construction (name and alias differ / coincide with other names)
             out.append(["aq", name, None, al])
+    for alias in (None, "a1", "c1"):
+        for frm in ("t", "u"):
+            out.append(["so", alias, frm])
     # tables among the other selectables: comparisons across kinds (a builder is not a table, whatever their aliases)
     for nm, al in (("t", None), ("t", "a1"), ("c1", None), ("a1", None)):
         out.append(["table", nm, al])
@@ -233,7 +242,7 @@ def run_tables(case, res):
                 res.violate("C17|Table|membership", "set membership disagrees with linear search", a=da, S=[d1, d2])
     # the library's own checks that rely on membership (join validation, RETURNING validation, star selection) must
     # treat b as "the statement's table a" exactly when a == b
-    from pypika_tortoise.dialects import PostgreSQLQuery as PGQ
+    from pypika_tortoise.dialects import MySQLQuery, PostgreSQLQuery as PGQ
     from pypika_tortoise import Query as GQ
 
     jj = Table("jj_other")
